@@ -569,9 +569,9 @@ func init() {
 				}
 			}
 			return []*sup.Space{
+				c08SiblingSpace(replayMode(false)),
 				{Name: "family-bfs-observe-after-every-step", RunAll: func(c *sup.Ctx) { c08Search(c, "family-bfs-observe-after-every-step", depth, true) }, ReplayCase: replayMode(true)},
 				{Name: "family-bfs-observe-at-end", RunAll: func(c *sup.Ctx) { c08Search(c, "family-bfs-observe-at-end", depth-1, false) }, ReplayCase: replayMode(false)},
-				c08SiblingSpace(replayMode(false)),
 			}
 		},
 	})
